@@ -305,6 +305,11 @@ def work_sweep(bins, branches, timestamps, hash_only=False):
     return dict(n=n, bad=bad)
 
 
+def work_deep(bins, argv, stdin):
+    r = core.run_zerv(bins, argv, stdin=stdin, timeout=120)
+    return judge(r, argv)
+
+
 # ---------------------------------------------------------------------------
 # git fault enumeration
 # ---------------------------------------------------------------------------
@@ -327,9 +332,13 @@ def build_repo(path, rng):
     return repo
 
 
-def work_faults(bins, seed, idx, tmp):
+ALL_CMDS = (["version"], ["flow"], ["version", "--output-format", "zerv"], ["flow", "--output-format", "pep440", "--schema", "standard-context"])
+
+
+def work_faults(bins, seed, idx, tmp, part=None):
+    """part: None = everything; 0..3 = only that command (part 0 also does layouts and environment faults)"""
     rng = random.Random("%s/%d" % (seed, idx))
-    home = os.path.join(tmp, "f%d" % idx)
+    home = os.path.join(tmp, "f%d_%s" % (idx, part))
     path = os.path.join(home, "repo")
     os.makedirs(home, exist_ok=True)
     bad = []
@@ -338,7 +347,9 @@ def work_faults(bins, seed, idx, tmp):
     pairs = 0
     try:
         repo = build_repo(path, rng)
-        for cmd in (["version"], ["flow"], ["version", "--output-format", "zerv"], ["flow", "--output-format", "pep440", "--schema", "standard-context"]):
+        for ci, cmd in enumerate(ALL_CMDS):
+            if part is not None and ci != part:
+                continue
             log = os.path.join(home, "git.log")
             if os.path.exists(log):
                 os.remove(log)
@@ -384,6 +395,8 @@ def work_faults(bins, seed, idx, tmp):
                                 bad.append(("stdout-not-single-line", "[git call %d fails with %s] stdout %r" % (k, mode, body[:200]), case))
                     else:
                         st["fault_exit_nonzero"] += 1
+        if part not in (None, 0):
+            return dict(bad=bad, st=st, calls=sorted(calls_seen), pairs=pairs)
         # special repository layouts: the result must still be the only thing on stdout
         import subprocess as _sp
         genv = gitmodel.git_env(home)
@@ -489,17 +502,18 @@ def run(ctx):
         deep.append((["version", "--source", "none", "--tag-version", "1.0.0", "--custom", "[" * min(n, 20000) + "]" * min(n, 20000)], None))
         deep.append((["version", "--source", "none", "--tag-version", "1.0.0", "--schema-ron", "(core: [" + "str(\"a\"), " * min(n, 5000) + "], extra_core: [], build: [])"], None))
         deep.append((["check", "1.0.0-" + "a." * min(n, 30000) + "a"], None))
-        deep.append((["render", "1.0+" + "a." * min(n, 30000) + "a", "--output-format", "semver"], None))
-    for argv, stdin in deep:
-        r = core.run_zerv(ctx.bins, argv, stdin=stdin, timeout=60)
+        deep.append((["render", "1.0+" + "a." * min(n, 4000) + "a", "--output-format", "semver"], None))   # (quadratic in the number of segments: kept small)
+    for (argv, stdin), res in zip(deep, core.pmap(work_deep, [(ctx.bins, a, s_) for a, s_ in deep])):
         ctx.evaluations += 1
         ctx.count("resource_exhaustion_probes")
-        for sig, why in judge(r, argv):
-            if sig != "__timeout__":
+        for sig, why in res:
+            if sig == "__timeout__":
+                ctx.count("resource_exhaustion_timeouts")
+            else:
                 ctx.refute(sig, why, dict(kind="fuzz", argv=[a if len(a) < 200 else a[:80] + "...<%d chars>" % len(a) for a in argv], stdin=(stdin or "")[:100], stdin_is_bytes=False))
     nrep = 5 if quick else 48
     calls = set()
-    for r in core.pmap(work_faults, [(ctx.bins, "%s/%d" % (ctx.prop, ctx.seed), i, ctx.tmp) for i in range(nrep)]):
+    for r in core.pmap(work_faults, [(ctx.bins, "%s/%d" % (ctx.prop, ctx.seed), i, ctx.tmp, part) for i in range(nrep) for part in range(4)]):
         ctx.merge_counts(r["st"])
         ctx.evaluations += r["st"]["fault_runs"]
         ctx.distinct_extra += r["pairs"]
